@@ -59,12 +59,18 @@ impl Receiver {
         // if we didn't get any credits then register the waker
         state.receiver.register(cx.waker());
 
+        verif_failpoint!("worker.poll_acquire.after_register");
+
         // make one more effort to acquire credits in case a sender submitted some while we were
         // registering the waker
         acquire!();
 
+        verif_failpoint!("worker.poll_acquire.before_senders");
+
         // If we're the only ones with a handle to the state then we're done
         if state.senders.load(Ordering::Acquire) == 0 {
+            verif_failpoint!("worker.poll_acquire.after_senders");
+
             // One last check in case the sender submitted work before dropping
             acquire!();
             return Poll::Ready(None);
@@ -97,6 +103,8 @@ impl Sender {
         // increment the work counter
         state.remaining.fetch_add(count, Ordering::Release);
 
+        verif_failpoint!("worker.submit.after_add");
+
         // wake up the receiver if possible
         state.receiver.wake();
     }
@@ -108,6 +116,8 @@ impl Drop for Sender {
         let state = &*self.0;
 
         state.senders.fetch_sub(1, Ordering::Release);
+
+        verif_failpoint!("worker.sender_drop.after_sub");
 
         // wake up the receiver to notify that one of the senders has dropped
         state.receiver.wake();
